@@ -141,6 +141,7 @@ class Sim:
         self.state_hashes = set()
         self.inflight = 0
         self.boost = None  # [SimThread, remaining decisions]
+        self.sleep_interrupt = None
 
     # ------------------------------------------------------------------ util
     def count(self, key, n=1):
@@ -432,11 +433,24 @@ class Sim:
             raise e
         return w
 
-    def sleep(self, dur):
+    def sleep(self, dur, interruptible=False):
+        """Virtual sleep.  interruptible=True only for the program's own
+        time.sleep (where a simulated Ctrl-C may land); stalls injected by
+        the simulator are not interruptible."""
         if not self.active():
             return
         if self.aborting:
             raise SimAbort()
+        me = self.me()
+        if not interruptible:
+            self.note("stall", round(dur, 6))
+            self.block("stall", None, dur)
+            return
+        if self.sleep_interrupt is not None and self.sleep_interrupt[0] is me:
+            e = self.sleep_interrupt[1]
+            self.sleep_interrupt = None
+            self.note("interrupt.delivered", "at-sleep-entry")
+            raise e
         self.note("sleep", round(dur, 6))
         self.block("sleep", None, dur)
 
@@ -462,11 +476,14 @@ class Sim:
                 self._wake(t, "notified")
 
     def interrupt(self, st, exc):
-        """Deliver `exc` to simulated thread `st` at its next yield point
-        (immediately if it is sleeping)."""
-        st.pending_exc = exc
+        """Deliver `exc` to simulated thread `st` while it sleeps: now if it
+        is sleeping, else on entry to its next sleep()."""
         if st.state == BLOCKED and st.block_kind in ("sleep", "ext"):
+            st.pending_exc = exc
+            self.note("interrupt.delivered", "during-sleep")
             self._wake(st, "interrupt")
+        else:
+            self.sleep_interrupt = (st, exc)
 
     # ----------------------------------------------------------- pre-emption
     def _tracer(self, frame, event, arg):
